@@ -2,7 +2,9 @@
   C07 (T2') — the interpreter model's REAL `_advance_head_front` (`CoreVM.advanceHeadFront`: position += 1, flow-status bookkeeping,
   try/except around `slide`, the "all heads are waiting" scan, finished / aborted handling, the final filter) on ONE matching head is the
   stand-in `advanceMember` used by the segment theorems: `advanceHeadFront_one`; instantiated for a member head of an and-clause:
-  `advanceHeadFront_member`.
+  `advanceHeadFront_member`.  On a LIST of heads (the loop with its `actionable` accumulator and the final filter):
+  `advanceHeadFront_chain` (generic, over a chain of `AdvStep`s), `advanceHeadFront_members` (all matching member heads of an and-clause:
+  = `runMembers`, returns the heads that are MERGING afterwards), `and_clause_phase1_real` (phase 1 of GroupVM through the real function).
 -/
 import NemoVerif.Lemmas.GroupCoreVMMirror
 set_option linter.unusedSimpArgs false
@@ -147,5 +149,330 @@ theorem advanceHeadFront_member (fuel : Nat) (s : VM) (f : FUid) (h : HUid) (i :
       (by rw [hst']; exact hstarted) hrange' (by rw [hp', C.hw]; rfl) (by rw [hs']; decide)
     rw [hs', if_neg (by decide)] at this
     exact ⟨s', i', this, F', hr', by rw [if_neg hc]; exact hv'⟩
+
+/-! ### a LIST of heads: the loop of `_advance_head_front` -/
+
+/-- one head advanced the way `advanceMember` does, with everything `_advance_head_front` looks at afterwards -/
+structure AdvStep (fuel : Nat) (f : FUid) (x : InstX) (cfg : FlowCfg) (h : HUid) (s s' : VM) (mg : Bool) : Prop where
+  ex : ∃ (i i' : Inst) (hd hd' : Head), HeadAt s f h i x cfg hd ∧ hd.status = .active ∧ i.status = .started ∧
+    advanceMember fuel f h s = .ok [] s' ∧
+    (∀ s0, setHeadPos (f, h) (hd.pos + 1) s = .ok () s0 → ∃ i0, findInst s0.ixs.ix f = some i0 ∧ i0.status = .started) ∧
+    FlowAt s' f i' x cfg ∧ i'.findHead h = some hd' ∧ hd'.pos < cfg.elements.size ∧ i'.status = .started ∧
+    (∀ o ∈ i'.heads, o.pos < cfg.elements.size) ∧ (cfg.elements[hd'.pos]!).isActionOp = false ∧ hd'.status ≠ .inactive ∧
+    mg = decide (hd'.status = .merging)
+
+inductive AdvChain (fuel : Nat) (f : FUid) (x : InstX) (cfg : FlowCfg) : List HUid → VM → List HUid → VM → Prop
+  | nil (s : VM) : AdvChain fuel f x cfg [] s [] s
+  | cons {h : HUid} {hs : List HUid} {s s1 s' : VM} {acts : List HUid} {mg : Bool} :
+      AdvStep fuel f x cfg h s s1 mg → AdvChain fuel f x cfg hs s1 acts s' →
+      AdvChain fuel f x cfg (h :: hs) s (if mg then h :: acts else acts) s'
+
+theorem advanceHeadFront_chain (fuel : Nat) (f : FUid) (x : InstX) (cfg : FlowCfg) (hs acts : List HUid) (s s' : VM)
+    (hc : AdvChain fuel f x cfg hs s acts s')
+    (halive : ∀ h ∈ acts, ∃ i hd, findInst s'.ixs.ix f = some i ∧ i.findHead h = some hd ∧ hd.status ≠ .inactive) :
+    advanceHeadFront (fuel + 1) (hs.map fun h => (f, h)) s = .ok (acts.map fun h => (f, h)) s' := by
+  unfold advanceHeadFront
+  simp only [bind, EStateM.bind]
+  generalize hbody : (fun (k : Key) (r : List Key) => _) = body
+  have key : ∀ (hs acts : List HUid) (s s' : VM), AdvChain fuel f x cfg hs s acts s' →
+      ∀ acc : List Key, forIn (hs.map fun h => (f, h)) acc body s = .ok (acc ++ acts.map fun h => (f, h)) s' := by
+    intro hs acts s s' hc
+    induction hc with
+    | nil s => intro acc; simp [pure, EStateM.pure]
+    | @cons h hs s s1 s' acts mg st _ ih =>
+      intro acc
+      obtain ⟨i, i', hd, hd', H, hact, hstarted, hadv, hi0, F', hh', hlt', hst', hrange, hnoact, hlive, hmg⟩ := st.ex
+      have hsplit : ∃ s0, setHeadPos (f, h) (hd.pos + 1) s = .ok () s0 ∧ slide fuel f h s0 = .ok [] s1 := by
+        simp only [advanceMember, bind, EStateM.bind, getHead?, getIx, get, getThe, MonadStateOf.get, EStateM.get, pure, EStateM.pure,
+          H.hi, Option.bind, H.hh] at hadv
+        cases h0 : setHeadPos (f, h) (hd.pos + 1) s with
+        | ok u s0 => rw [h0] at hadv; exact ⟨s0, rfl, hadv⟩
+        | error e s0 => rw [h0] at hadv; cases hadv
+      obtain ⟨s0, h0, hsl⟩ := hsplit
+      obtain ⟨i0, hi0', hst0⟩ := hi0 s0 h0
+      have hstep : body (f, h) acc s = .ok (.yield (acc ++ if mg then [(f, h)] else [])) s1 := by
+        rw [← hbody]
+        simp only [List.forIn_cons, List.forIn_nil, bind, EStateM.bind, pure, EStateM.pure, getInst?, getIx, get, getThe, MonadStateOf.get,
+          EStateM.get, H.hi, cfgOfInst, getInstX, getInstX?, getRest, H.hx, getCfg, H.hc, getHead?, Option.bind, H.hh, hact,
+          show decide (HeadStatus.active = HeadStatus.inactive) = false from by decide, hstarted, show FlowStatus.started.listening = true from rfl, Bool.not_true, Bool.or_false,
+          Bool.false_eq_true, if_false, show decide (HeadStatus.active = HeadStatus.merging) = false from by decide, Bool.false_and, if_true, h0,
+          getInst, hi0', hst0, show (FlowStatus.started = FlowStatus.waiting) = False from by simp,
+          attemptPy, tryCatch, tryCatchThe, MonadExceptOf.tryCatch, EStateM.tryCatch, hsl, List.isEmpty_nil,
+          F'.hi, hh', Option.isSome_some, Bool.true_and, show decide (hd'.pos ≥ cfg.elements.size) = false from by simp; exact hlt', hst',
+          show (FlowStatus.started = FlowStatus.stopping) = False from by simp, show (FlowStatus.started = FlowStatus.starting) = False from by simp,
+          Bool.not_false, Bool.and_self]
+        generalize hL : (forIn i'.heads true _ : M Bool) s1 = R
+        have hR : ∃ b, R = EStateM.Result.ok b s1 := by
+          rw [← hL]
+          apply forIn_readonly
+          intro o ho acc
+          by_cases hin : o.status ≠ HeadStatus.inactive
+          · simp only [hin, if_true, ne_eq, not_false_eq_true]
+            have hlt := hrange o ho
+            have hsome : cfg.elements[o.pos]? = some cfg.elements[o.pos] := by simp [hlt]
+            rw [hsome]
+            cases cfg.elements[o.pos] <;> first
+              | exact ⟨_, rfl⟩
+              | (simp only []; split <;> exact ⟨_, rfl⟩)
+          · simp only [hin, if_false]
+            exact ⟨_, rfl⟩
+        obtain ⟨b, rfl⟩ := hR
+        clear hL
+        have hel' : cfg.elements[hd'.pos]? = some cfg.elements[hd'.pos]! := by
+          simp [getElem!_pos, hlt']
+        simp only [Bool.false_or, hel', hnoact, Bool.false_eq_true, if_false]
+        cases b with
+        | true =>
+          simp only [if_true, bind, EStateM.bind, get, getThe, MonadStateOf.get, EStateM.get, pure, EStateM.pure, F'.hi, hst',
+            show (FlowStatus.started = FlowStatus.starting) = False from by simp, if_false]
+          by_cases hm : hd'.status = HeadStatus.merging
+          · simp only [hmg, hm, decide_true, if_true, Bool.false_eq_true, if_false, pure, EStateM.pure]
+          · simp only [hmg, hm, decide_false, Bool.false_eq_true, if_false, pure, EStateM.pure, List.append_nil]
+        | false =>
+          simp only [Bool.false_eq_true, if_false, pure, EStateM.pure]
+          by_cases hm : hd'.status = HeadStatus.merging
+          · simp only [hmg, hm, decide_true, if_true, Bool.false_eq_true, if_false, pure, EStateM.pure]
+          · simp only [hmg, hm, decide_false, Bool.false_eq_true, if_false, pure, EStateM.pure, List.append_nil]
+      simp only [List.map_cons, List.forIn_cons, bind, EStateM.bind, hstep]
+      rw [ih]
+      cases mg <;> simp
+  rw [key hs acts s s' hc []]
+  simp only [getIx, get, getThe, MonadStateOf.get, EStateM.get, bind, EStateM.bind, pure, EStateM.pure, List.nil_append]
+  congr 1
+  rw [List.filter_eq_self]
+  intro k hk
+  obtain ⟨h, hh, rfl⟩ := List.mem_map.1 hk
+  obtain ⟨i, hd, hi, hfh, hl⟩ := halive h hh
+  simp [hi, hfh, hl]
+
+/-- a member head of an and-clause: its `AdvStep`, and what the heads of the instance look like afterwards -/
+theorem advStep_member (fuel : Nat) (s : VM) (f : FUid) (h : HUid) (i : Inst) (x : InstX) (cfg : FlowCfg) (hd : Head)
+    (l u : String) (pe n : Nat)
+    (H : HeadAt s f h i x cfg hd) (hown : x.ctxOwner = none) (hact : hd.status = .active) (hstarted : i.status = .started)
+    (C : ClauseShape cfg l u pe n)
+    (hgoto : cfg.elements[hd.pos + 1]! = .goto (.lit (.bool true)) l) (hlt : hd.pos + 1 < pe + 1)
+    (hnd : ((hview i).map (·.1)).Nodup) (hrange : ∀ o ∈ i.heads, o.pos < cfg.elements.size) :
+    ∃ s' i', AdvStep (fuel + 3) f x cfg h s s'
+        (decide (((hview i).filter fun t => t.2.2 ≠ .inactive && t.2.1 = pe + 1).length + 1 ≥ n)) ∧
+      advanceMember (fuel + 3) f h s = .ok [] s' ∧
+      FlowAt s' f i' x cfg ∧ s'.r = s.r ∧ i'.status = .started ∧ (∀ o ∈ i'.heads, o.pos < cfg.elements.size) ∧
+      ((hview i').map (·.1)).Nodup ∧
+      hview i' = (hview i).map
+        (if ((hview i).filter fun t => t.2.2 ≠ .inactive && t.2.1 = pe + 1).length + 1 ≥ n
+          then setCore h (pe + 2) .merging else setCore h (pe + 1) .active) := by
+  have hsz := C.hsize
+  obtain ⟨s', i', hadv, F', hr', hv', hst'⟩ := advanceMember_spec fuel s f h i x cfg hd l u pe n H hown hact C hgoto hlt hnd
+  have hmem := mem_hview_of_findHead i h hd H.hh
+  have hfst : ∀ (g : HCore → HCore), (∀ t, (g t).1 = t.1) → ((fun (t : HCore) => t.1) ∘ g) = fun t => t.1 := by
+    intro g hg; funext t; exact hg t
+  have hndv' : ((hview i').map (·.1)).Nodup := by
+    rw [hv', List.map_map]
+    split
+    · rw [hfst _ (fun t => setCore_fst _ _ _ t)]; exact hnd
+    · rw [hfst _ (fun t => setCore_fst _ _ _ t)]; exact hnd
+  have hrange' : ∀ o ∈ i'.heads, o.pos < cfg.elements.size := by
+    intro o ho
+    have hmo : (o.uid, o.pos, o.status) ∈ hview i' := by simp only [hview, List.mem_map]; exact ⟨o, ho, rfl⟩
+    rw [hv'] at hmo
+    obtain ⟨t, ht, e⟩ := List.mem_map.1 hmo
+    simp only [hview, List.mem_map] at ht
+    obtain ⟨o0, ho0, rfl⟩ := ht
+    have h0 := hrange o0 ho0
+    split at e <;> simp only [setCore] at e <;> split at e <;> simp only [Prod.mk.injEq] at e <;> omega
+  have hi0 : ∀ s0, setHeadPos (f, h) (hd.pos + 1) s = .ok () s0 → ∃ i0, findInst s0.ixs.ix f = some i0 ∧ i0.status = .started := by
+    intro s0 h0
+    have hnm0 : NotMatchAt cfg (hd.pos + 1) := notMatchAt_of cfg (hd.pos + 1) _ (by omega) hgoto rfl
+    obtain ⟨hg0, h0'⟩ := setHeadPos_ok s f h i x cfg hd (hd.pos + 1) H.toFlowAt H.hh (by omega) hnm0
+    rw [h0'] at h0
+    cases h0
+    exact ⟨_, findInst_setPos s.ixs.ix f h i hd (hd.pos + 1) none H.hi H.hh (by omega), hstarted⟩
+  have hst'' : i'.status = .started := by rw [hst']; exact hstarted
+  refine ⟨s', i', ?_, hadv, F', hr', hst'', hrange', hndv', hv'⟩
+  by_cases hc : ((hview i).filter fun t => t.2.2 ≠ .inactive && t.2.1 = pe + 1).length + 1 ≥ n
+  · rw [if_pos hc] at hv'
+    have hmem' : (h, pe + 2, HeadStatus.merging) ∈ hview i' := by
+      rw [hv']; exact List.mem_map.2 ⟨_, hmem, by simp [setCore]⟩
+    obtain ⟨hd', hh', hp', hs'⟩ := findHead_of_mem_hview i' hndv' h (pe + 2) .merging hmem'
+    exact ⟨i, i', hd, hd', H, hact, hstarted, hadv, hi0, F', hh', by rw [hp']; exact hsz, hst'', hrange', by rw [hp', C.hm]; rfl,
+      by rw [hs']; decide, by rw [hs']; exact (decide_eq_true hc).trans (decide_eq_true rfl).symm⟩
+  · rw [if_neg hc] at hv'
+    have hmem' : (h, pe + 1, HeadStatus.active) ∈ hview i' := by
+      rw [hv']; exact List.mem_map.2 ⟨_, hmem, by simp [setCore]⟩
+    obtain ⟨hd', hh', hp', hs'⟩ := findHead_of_mem_hview i' hndv' h (pe + 1) .active hmem'
+    exact ⟨i, i', hd, hd', H, hact, hstarted, hadv, hi0, F', hh', by rw [hp']; omega, hst'', hrange', by rw [hp', C.hw]; rfl,
+      by rw [hs']; decide, by rw [hs', decide_eq_false hc]; exact (decide_eq_false (by decide)).symm⟩
+
+theorem hview_fst_unique (i : Inst) (hnd : ((hview i).map (·.1)).Nodup) (a b : HCore) (ha : a ∈ hview i) (hb : b ∈ hview i)
+    (e : a.1 = b.1) : a = b := by
+  generalize hview i = L at hnd ha hb
+  induction L with
+  | nil => cases ha
+  | cons t L ih =>
+    simp only [List.map_cons, List.nodup_cons] at hnd
+    rcases List.mem_cons.1 ha with rfl | ha' <;> rcases List.mem_cons.1 hb with rfl | hb'
+    · rfl
+    · exact absurd (List.mem_map.2 ⟨b, hb', e.symm⟩) hnd.1
+    · exact absurd (List.mem_map.2 ⟨a, ha', e⟩) hnd.1
+    · exact ih hnd.2 ha' hb'
+
+/-- **CoreVM's `_advance_head_front` on the LIST of matching member heads of an and-clause** (what `runToCompletion` hands it for one
+    event): it is `runMembers` — every head advanced by `position += 1; slide`, one after the other — and it returns exactly the
+    heads that are MERGING afterwards, in order. -/
+theorem advanceHeadFront_members (fuel : Nat) (f : FUid) (x : InstX) (cfg : FlowCfg) (l u : String) (pe n : Nat)
+    (hown : x.ctxOwner = none) (C : ClauseShape cfg l u pe n) :
+    ∀ (hs : List HUid) (s : VM) (i : Inst), FlowAt s f i x cfg → i.status = .started →
+      (∀ o ∈ i.heads, o.pos < cfg.elements.size) → ((hview i).map (·.1)).Nodup → hs.Nodup →
+      (∀ h ∈ hs, ∃ p, (h, p, HeadStatus.active) ∈ hview i ∧ cfg.elements[p + 1]! = .goto (.lit (.bool true)) l ∧ p + 1 < pe + 1) →
+      ∃ s' i', advanceHeadFront (fuel + 4) (hs.map fun h => (f, h)) s
+          = .ok ((hs.filter fun h => decide ((h, pe + 2, HeadStatus.merging) ∈ hview i')).map fun h => (f, h)) s' ∧
+        runMembers (fuel + 3) f hs s = .ok () s' ∧ FlowAt s' f i' x cfg ∧ s'.r = s.r ∧ i'.status = .started ∧
+        (∀ o ∈ i'.heads, o.pos < cfg.elements.size) ∧ ((hview i').map (·.1)).Nodup := by
+  have key : ∀ (hs : List HUid) (s : VM) (i : Inst), FlowAt s f i x cfg → i.status = .started →
+      (∀ o ∈ i.heads, o.pos < cfg.elements.size) → ((hview i).map (·.1)).Nodup → hs.Nodup →
+      (∀ h ∈ hs, ∃ p, (h, p, HeadStatus.active) ∈ hview i ∧ cfg.elements[p + 1]! = .goto (.lit (.bool true)) l ∧ p + 1 < pe + 1) →
+      ∃ s' i', AdvChain (fuel + 3) f x cfg hs s (hs.filter fun h => decide ((h, pe + 2, HeadStatus.merging) ∈ hview i')) s' ∧
+        runMembers (fuel + 3) f hs s = .ok () s' ∧ FlowAt s' f i' x cfg ∧ s'.r = s.r ∧ i'.status = .started ∧
+        (∀ o ∈ i'.heads, o.pos < cfg.elements.size) ∧ ((hview i').map (·.1)).Nodup ∧
+        (∀ t ∈ hview i, t.1 ∉ hs → t ∈ hview i') := by
+    intro hs
+    induction hs with
+    | nil =>
+      intro s i F hst hr hnd _ _
+      exact ⟨s, i, AdvChain.nil s, by simp [runMembers, pure, EStateM.pure], F, rfl, hst, hr, hnd, fun t ht _ => ht⟩
+    | cons h hs ih =>
+      intro s i F hst hr hnd hnds hall
+      obtain ⟨p, hmem, hgoto, hlt⟩ := hall h (by simp)
+      obtain ⟨hd, hfh, hpos, hstat⟩ := findHead_of_mem_hview i hnd h p .active hmem
+      have hsz := C.hsize
+      have H : HeadAt s f h i x cfg hd :=
+        { hi := F.hi, hx := F.hx, hc := F.hc, hh := hfh, hlt := by rw [hpos]; omega, hst := by rw [hstat]; decide }
+      obtain ⟨s1, i1, st, hadv, F1, hr1, hst1, hrange1, hnd1, hv1⟩ := advStep_member fuel s f h i x cfg hd l u pe n H hown hstat hst C
+        (by rw [hpos]; exact hgoto) (by rw [hpos]; exact hlt) hnd hr
+      have hnds' := (List.nodup_cons.1 hnds)
+      -- entries of other heads are untouched by this step
+      have hkeep : ∀ t ∈ hview i, t.1 ≠ h → t ∈ hview i1 := by
+        intro t ht hne
+        rw [hv1]
+        refine List.mem_map.2 ⟨t, ht, ?_⟩
+        split <;> simp [setCore, hne]
+      obtain ⟨s', i', hch, hrun, F', hr', hst', hrange', hnd', hkeep'⟩ := ih s1 i1 F1 hst1 hrange1 hnd1 hnds'.2 (by
+        intro h2 hh2
+        obtain ⟨p2, hm2, hg2, hl2⟩ := hall h2 (by simp [hh2])
+        exact ⟨p2, hkeep _ hm2 (fun (e : h2 = h) => hnds'.1 (e ▸ hh2)), hg2, hl2⟩)
+      refine ⟨s', i', ?_, ?_, F', by rw [hr', hr1], hst', hrange', hnd', ?_⟩
+      · -- the chain, and what is handed back
+        have hc := AdvChain.cons st hch
+        have hiff : decide (((hview i).filter fun t => t.2.2 ≠ .inactive && t.2.1 = pe + 1).length + 1 ≥ n)
+            = decide ((h, pe + 2, HeadStatus.merging) ∈ hview i') := by
+          by_cases hcn : ((hview i).filter fun t => t.2.2 ≠ .inactive && t.2.1 = pe + 1).length + 1 ≥ n
+          · have : (h, pe + 2, HeadStatus.merging) ∈ hview i1 := by
+              rw [hv1, if_pos hcn]; exact List.mem_map.2 ⟨_, hmem, by simp [setCore]⟩
+            rw [decide_eq_true hcn, decide_eq_true (hkeep' _ this hnds'.1)]
+          · have h1 : (h, pe + 1, HeadStatus.active) ∈ hview i1 := by
+              rw [hv1, if_neg hcn]; exact List.mem_map.2 ⟨_, hmem, by simp [setCore]⟩
+            have h2 := hkeep' _ h1 hnds'.1
+            have : (h, pe + 2, HeadStatus.merging) ∉ hview i' := by
+              intro h3
+              have := hview_fst_unique i' hnd' _ _ h2 h3 rfl
+              simp at this
+            rw [decide_eq_false hcn, decide_eq_false this]
+        rw [hiff] at hc
+        simpa [List.filter_cons] using hc
+      · rw [runMembers_cons _ _ _ _ _ _ _ hadv]; exact hrun
+      · intro t ht hnot
+        have hne : t.1 ≠ h := fun e => hnot (by simp [e])
+        exact hkeep' t (hkeep t ht hne) (fun hm => hnot (by simp [hm]))
+  intro hs s i F hst hr hnd hnds hall
+  obtain ⟨s', i', hch, hrun, F', hr', hst', hrange', hnd', _⟩ := key hs s i F hst hr hnd hnds hall
+  refine ⟨s', i', ?_, hrun, F', hr', hst', hrange', hnd'⟩
+  apply advanceHeadFront_chain (fuel + 3) f x cfg hs _ s s' hch
+  intro h hh
+  have hm := (List.mem_filter.1 hh).2
+  have hm' : (h, pe + 2, HeadStatus.merging) ∈ hview i' := by simpa using hm
+  obtain ⟨hd', hh', _, hs'⟩ := findHead_of_mem_hview i' hnd' h (pe + 2) .merging hm'
+  exact ⟨i', hd', F'.hi, hh', by rw [hs']; decide⟩
+
+/-! ### phase 1 of `GroupVM` through the real function -/
+
+open NemoVerif.GroupVM (MLoc countWait p1Members)
+
+theorem matchingU_mem (e wp : Nat) : ∀ (us : List (HUid × Nat)) (ms : List (Nat × MLoc)) (h : HUid), h ∈ matchingU e us ms →
+    ∃ u ∈ us, u.1 = h ∧ (u.1, u.2, HeadStatus.active) ∈ renderU wp us ms := by
+  intro us
+  induction us with
+  | nil => intro ms h hh; cases ms <;> simp [matchingU] at hh
+  | cons u us ih =>
+    intro ms h hh
+    cases ms with
+    | nil => simp [matchingU] at hh
+    | cons m ms =>
+      obtain ⟨a, loc⟩ := m
+      have lift : h ∈ matchingU e us ms → ∃ u' ∈ u :: us, u'.1 = h ∧ (u'.1, u'.2, HeadStatus.active) ∈ renderU wp (u :: us) ((a, loc) :: ms) := by
+        intro hh'
+        obtain ⟨u', hu', e1, hm⟩ := ih ms h hh'
+        exact ⟨u', List.mem_cons_of_mem _ hu', e1, by simp only [renderU, List.zipWith_cons_cons]; exact List.mem_cons_of_mem _ hm⟩
+      cases loc with
+      | atMatch =>
+        by_cases hae : (a == e) = true
+        · simp only [matchingU, hae, if_true, List.mem_cons] at hh
+          rcases hh with rfl | hh
+          · exact ⟨u, by simp, rfl, by simp [renderU, mlocCore]⟩
+          · exact lift hh
+        · simp only [matchingU, hae, if_false] at hh
+          exact lift hh
+      | atWait => exact lift (by simpa [matchingU] using hh)
+      | merging => exact lift (by simpa [matchingU] using hh)
+      | lost => exact lift (by simpa [matchingU] using hh)
+
+theorem matchingU_sublist (e : Nat) : ∀ (us : List (HUid × Nat)) (ms : List (Nat × MLoc)), (matchingU e us ms).Sublist (us.map (·.1)) := by
+  intro us
+  induction us with
+  | nil => intro ms; cases ms <;> simp [matchingU]
+  | cons u us ih =>
+    intro ms
+    cases ms with
+    | nil => simp [matchingU]
+    | cons m ms =>
+      obtain ⟨a, loc⟩ := m
+      cases loc with
+      | atMatch =>
+        by_cases hae : (a == e) = true
+        · simp only [matchingU, hae, if_true, List.map_cons]; exact (ih ms).cons_cons _
+        · simp only [matchingU, hae, if_false, List.map_cons]; exact (ih ms).cons _
+      | atWait => simp only [matchingU, List.map_cons]; exact (ih ms).cons _
+      | merging => simp only [matchingU, List.map_cons]; exact (ih ms).cons _
+      | lost => simp only [matchingU, List.map_cons]; exact (ih ms).cons _
+
+/-- **phase 1 of `GroupVM` on an and-clause through CoreVM's REAL `_advance_head_front`**: called with the list of member heads that
+    wait on `match e` (flow STARTED, every head inside the program), it ends in the state `GroupVM.p1Members e n [] ms` describes and
+    returns exactly the heads that are MERGING then (the input of the merging loop of `runToCompletion`). -/
+theorem and_clause_phase1_real (fuel : Nat) (s : VM) (f : FUid) (i : Inst) (x : InstX) (cfg : FlowCfg) (l mu : String) (pe n e : Nat)
+    (others : List HCore) (us : List (HUid × Nat)) (ms : List (Nat × MLoc))
+    (F : FlowAt s f i x cfg) (hown : x.ctxOwner = none) (C : ClauseShape cfg l mu pe n) (S : MembersShape cfg l pe us)
+    (hlen : us.length = ms.length) (hnd : (others.map (·.1) ++ us.map (·.1)).Nodup)
+    (hoth : others.filter (liveAt (pe + 1)) = [])
+    (hv : hview i = others ++ renderU (pe + 1) us ms)
+    (hstarted : i.status = .started) (hrange : ∀ o ∈ i.heads, o.pos < cfg.elements.size) :
+    ∃ s' i', advanceHeadFront (fuel + 4) ((matchingU e us ms).map fun h => (f, h)) s
+        = .ok (((matchingU e us ms).filter fun h => decide ((h, pe + 2, HeadStatus.merging) ∈ hview i')).map fun h => (f, h)) s' ∧
+      FlowAt s' f i' x cfg ∧ s'.r = s.r ∧
+      hview i' = others ++ renderU (pe + 1) us (p1Members e n [] ms) := by
+  have hndv : ((hview i).map (·.1)).Nodup := by
+    rw [hv, List.map_append, renderU_fst _ _ _ hlen]; exact hnd
+  have hndu : (us.map (·.1)).Nodup := (List.nodup_append.1 hnd).2.1
+  obtain ⟨s1, i1, hreal, hrun1, F1, _, _, _, _⟩ := advanceHeadFront_members fuel f x cfg l mu pe n hown C (matchingU e us ms) s i F hstarted
+    hrange hndv ((matchingU_sublist e us ms).nodup hndu) (by
+      intro h hh
+      obtain ⟨u, hu, e1, hm⟩ := matchingU_mem e (pe + 1) us ms h hh
+      have hs := S u hu
+      exact ⟨u.2, by rw [hv, ← e1]; exact List.mem_append_right _ hm, hs.1, hs.2⟩)
+  obtain ⟨s2, i2, hrun2, F2, hr2, hv2⟩ := and_clause_phase1 fuel s f i x cfg l mu pe n e others us ms F hown C S hlen hnd hoth hv
+  have es : s1 = s2 := by
+    have := hrun1.symm.trans hrun2
+    injection this
+  subst es
+  have ei : i1 = i2 := Option.some.inj (F1.hi.symm.trans F2.hi)
+  subst ei
+  exact ⟨s1, i1, hreal, F2, hr2, hv2⟩
 
 end NemoVerif.CoreVM
